@@ -575,7 +575,11 @@ func (c *tvCtx) foldStmts(list []ast.Stmt) []ast.Stmt {
 				cl := cc.(*ast.CaseClause)
 				cl.Body = c.foldStmts(cl.Body)
 			}
-			out = append(out, n)
+			if chain := c.switchToIfChain(n); chain != nil {
+				out = append(out, chain)
+			} else {
+				out = append(out, n)
+			}
 		case *ast.LabeledStmt:
 			r := c.foldStmts([]ast.Stmt{n.Stmt})
 			if len(r) == 1 {
@@ -758,6 +762,65 @@ func (c *tvCtx) breakLoop(n *ast.ForStmt) ast.Stmt {
 	cond, _ := negateExpr(ifs.Cond)
 	c.used("`for { if c { break }; body }` rewritten to `for !c { body }`")
 	return &ast.ForStmt{Cond: cond, Body: &ast.BlockStmt{List: n.Body.List[1:]}}
+}
+
+// switchToIfChain rewrites a tagless switch without init, fallthrough or break - `switch { case a: A; case b, c: B;
+// default: D }` - to the chain `if a { A } else if b || c { B } else { D }` it abbreviates (the default clause last).
+func (c *tvCtx) switchToIfChain(n *ast.SwitchStmt) ast.Stmt {
+	if n.Tag != nil || n.Init != nil || len(n.Body.List) == 0 {
+		return nil
+	}
+	var def *ast.CaseClause
+	var cases []*ast.CaseClause
+	for i, cc := range n.Body.List {
+		cl := cc.(*ast.CaseClause)
+		if cl.List == nil {
+			if i != len(n.Body.List)-1 {
+				return nil // a default clause that is not last: order of evaluation is the same, but keep it simple
+			}
+			def = cl
+		} else {
+			cases = append(cases, cl)
+		}
+		bad := false
+		for _, s := range cl.Body {
+			ast.Inspect(s, func(m ast.Node) bool {
+				switch x := m.(type) {
+				case *ast.ForStmt, *ast.RangeStmt, *ast.SwitchStmt, *ast.TypeSwitchStmt, *ast.SelectStmt, *ast.FuncLit:
+					return false // a break inside belongs to that statement
+				case *ast.BranchStmt:
+					if x.Tok == token.BREAK || x.Tok == token.FALLTHROUGH {
+						bad = true
+					}
+				}
+				return !bad
+			})
+		}
+		if bad {
+			return nil
+		}
+	}
+	if len(cases) == 0 {
+		return nil
+	}
+	var tail ast.Stmt
+	if def != nil {
+		tail = &ast.BlockStmt{List: def.Body}
+	}
+	for i := len(cases) - 1; i >= 0; i-- {
+		cl := cases[i]
+		cond := cl.List[0]
+		for _, e := range cl.List[1:] {
+			cond = &ast.BinaryExpr{X: cond, Op: token.LOR, Y: e}
+		}
+		ifs := &ast.IfStmt{Cond: cond, Body: &ast.BlockStmt{List: cl.Body}}
+		if tail != nil {
+			ifs.Else = tail
+		}
+		tail = ifs
+	}
+	c.used("tagless switch rewritten to the if / else-if chain it abbreviates")
+	return tail
 }
 
 // guardedTail rewrites, in a loop body, `if c { continue }; S...` into `if !c { S... }` (S being the rest of the body):
